@@ -16,7 +16,7 @@ if git apply --check "$patch" 2>/dev/null; then git apply "$patch"; echo "applie
 /venv/bin/python -c "import geneticengine, geml.simplegp" >/dev/null 2>&1; echo "imports_exit=$?"
 /venv/bin/python "$demo" >/tmp/seed_verify/$name.patched.log 2>&1; echo "demo_patched_exit=$?"
 if [ "$suite" = "--suite" ]; then
-  /venv/bin/python -m pytest -q -p no:cacheprovider --timeout=900 -n 5 2>&1 | grep -E "passed|failed" | tail -3 | sed 's/^/suite: /'
+  /venv/bin/python -m pytest -q -p no:cacheprovider --timeout=900 -n 5 2>&1 | grep -E "passed|failed|^FAILED" | tail -4 | sed 's/^/suite: /'
 fi
 git diff > /tmp/seed_verify/$name.applied.diff
 } > "$out" 2>&1
